@@ -31,6 +31,12 @@ ParsePlaintext(b, o, e) ==
                        LAMBDA s, t : DecPayload(h.v.ct, b, s, t, h.v.len)),
              LAMBDA msgs : [hdr |-> h.v, msg |-> msgs]))
 
+(* two-step parsing: parse_tls_raw_record, then parse_tls_record_with_header on its data; *)
+(* the result's offset is that of the undecoded tail inside the record                   *)
+TwoStep(b, o, e) ==
+  Bind(ParseRaw(b, o, e), LAMBDA r :
+    DecPayload(r.v.hdr.ct, b, r.p - r.v.hdr.len, r.p, r.v.hdr.len))
+
 (* tls_parser_many = many1(complete(parse_tls_plaintext)) *)
 ParseMany(b, o, e) == Many1(LAMBDA p : Complete(ParsePlaintext(b, p, e)), o, e)
 
